@@ -68,7 +68,8 @@ pub fn preprocess(expr: &str, file_id: FileID) -> Result<String, Box<Report>> {
         }
     }
     if state == 2 || state == 3 {
-        let error = UnclosedCommentError { location: block_start..block_start, file_id };
+        // The location is the `/*` which opens the comment.
+        let error = UnclosedCommentError { location: block_start - 2..block_start, file_id };
         return Err(Box::new(error.into_report()));
     }
     Ok(pp)
